@@ -120,11 +120,15 @@ def run(argv, stdin=b"", env=None, cpu=10, wall=120, max_out=64 << 20):
                 e[k] = v
     r = Res()
     r.argv = [str(a) if not isinstance(a, bytes) else a for a in argv]
-    r.stdin = stdin
+    fobj = None
+    if hasattr(stdin, "fileno"):
+        # deliver stdin from a file: read() results do not depend on pipe timing
+        fobj, stdin = stdin, None
+    r.stdin = stdin if fobj is None else b""
     r.env = env or {}
     r.cpu_exceeded = r.timed_out = r.truncated = False
     try:
-        p = subprocess.Popen(r.argv, stdin=subprocess.PIPE, stdout=subprocess.PIPE,
+        p = subprocess.Popen(r.argv, stdin=subprocess.PIPE if fobj is None else fobj, stdout=subprocess.PIPE,
                              stderr=subprocess.PIPE, env=e, preexec_fn=_preexec(cpu, 0))
     except OSError as ex:
         r.rc, r.sig, r.out, r.err = 127, None, b"", str(ex).encode()
